@@ -14,6 +14,7 @@
 #include "c11.hpp"
 #include "c12.hpp"
 #include "c13.hpp"
+#include "c14.hpp"
 #include "c15.hpp"
 #include "c16.hpp"
 #include "c17.hpp"
